@@ -12,6 +12,8 @@ pub mod c08;
 pub mod c09;
 pub mod c10;
 pub mod c11;
+pub mod c12;
+pub mod c13;
 
 /// (report, rule, explanation, exhaustive-subspace flag)
 pub fn run(prop: &str, ctx: &Ctx) -> Option<(Report, &'static str, &'static str, bool)> {
@@ -27,6 +29,8 @@ pub fn run(prop: &str, ctx: &Ctx) -> Option<(Report, &'static str, &'static str,
         "C09" => (c09::run(ctx), c09::RULE, "", false),
         "C10" => (c10::run(ctx), c10::RULE, "", false),
         "C11" => (c11::run(ctx), c11::RULE, "", true),
+        "C12" => (c12::run(ctx), c12::RULE, "", false),
+        "C13" => (c13::run(ctx), c13::RULE, "", false),
         _ => return None,
     })
 }
